@@ -222,7 +222,22 @@ def run(rep, tier, seed, proof_ok):
                 "expectations that an unchanged kept reader / producer is served from the store, that the kept reader runs again after the change, "
                 "and that read-before-produce / never-produced is rejected by a DDS error and commits nothing; one deterministic slice per "
                 "role (load / reader / keep on every kind of thread, rejected and earlier-evaluation producers from every kind of thread) + seeded "
-                "random points of the whole product (10 quick, 400 thorough)")
+                "random points of the whole product (10 quick, 400 thorough); "
+                "nesting dimension (c09_nested.py): the loaded path is kept INSIDE a kept function, nesting depth 1-3 below the evaluated function "
+                "(every level through dds.keep or as a data function; + the deepest function kept under two paths, + a sibling branch with its own "
+                "nested path that no edit touches, + the evaluated function loading the deepest path after having produced it) x the pipeline "
+                "evaluated through {dds.eval, a top-level dds.keep, a data function called at top level} x histories that come back to a state "
+                "the store has seen {edit-revert, edit-revert-edit, two edits then back to the first version, another top-level producer keeps "
+                "another function at the deepest path before the unchanged pipeline is evaluated again, edit-overwrite-revert, "
+                "edit-revert-overwrite-same} x the edit {tracked variable read by, literal argument passed to} level 0..depth; one process per "
+                "installed version; after every evaluation, in the same process and again from a fresh process, EVERY kept path (the one of the "
+                "top call and every nested one) is loaded outside any evaluation, a reader of the nested paths {kept function, data function, "
+                "root of an evaluated function, helper} is evaluated (some twice), and a later kept reader is evaluated from the fresh process; "
+                "compared with the dds-free execution of the same files (every evaluation, load and reader) and with the Coq model, with the "
+                "expectations that an evaluation repeated without change runs nothing kept again, that a kept reader is served from the store "
+                "while the loaded paths serve the same content and runs again when they serve content not seen before; one third of "
+                "{way of evaluating} x {depth} x {history} in the quick tier (the other dimensions rotating) + 4 seeded random points, the whole "
+                "product of the three + 100 random points x {local store, local store behind the LRU cache of 3 entries} in the thorough tier")
     jobs = []
     for placement, producer, populated, argp in itertools.product(PLACEMENTS, PRODUCERS, (False, True), (False, True)):
         if populated and producer in ("earlier-evaluation", "never"):
@@ -290,8 +305,10 @@ def run(rep, tier, seed, proof_ok):
         if not rejected and job["placement"] in ("kept-function", "data-function") and len(calls) >= 2 and calls[0]["impl"]["out"].startswith("ok:"):
             if "reader" in calls[1]["impl"]["log"]:
                 rep.violation("reader-recomputed-unchanged", f"{name}: the kept reader ran again although /p serves the same result", replay)
+    import c09_nested
     import c09_threads
-    rep.extra["input_distribution"] = {"scenarios": len(jobs), "outcomes_of_root_calls": outcomes, "threads": c09_threads.run(rep, tier, seed, proof_ok)}
+    rep.extra["input_distribution"] = {"scenarios": len(jobs), "outcomes_of_root_calls": outcomes, "threads": c09_threads.run(rep, tier, seed, proof_ok),
+                                       "nested": c09_nested.run(rep, tier, seed, proof_ok)}
     rep.sample({"scenario": "root/keep-before/fresh/ret", "events_kinds": [e[0] if e[0] != "act" else e[1]["a"] + ":" + e[1].get("fn", "") for e in jobs[0]["events"]]})
 
 
@@ -300,5 +317,8 @@ def replay(path):
     if "tscen" in r:
         import c09_threads
         return c09_threads.replay(r)
+    if "nscen" in r:
+        import c09_nested
+        return c09_nested.replay(r)
     import c01
     return c01.replay(path)
